@@ -9,14 +9,19 @@ Transcribed from: `_process_graph_io_arguments`, `readGraph`, `writeGraph`,
 `_write_graph_kthlist_bipartite`, `_write_graph_dimacs_format`, `_write_graph_matrix_format`,
 `normalize_networkx_labels`, `Graph/DirectedGraph/BipartiteGraph.from_networkx`.
 
-The model follows the code as it is (after the `fix:` commits 97bcab4, db71920, ea21017):
+The model follows the code as it is (after the `fix:` commits 97bcab4, db71920, ea21017, 8f27729,
+1cd08f4, 91715a4):
   * a kthlist file without a size line: `next(parser)` → StopIteration is caught → ValueError;
   * a blank line in a graph-DIMACS file is skipped;
   * `_read_bipartite_kthlist` assigns `previous = left` (`bipAdvance`), so a repeated or
     out-of-order left vertex is a ValueError;
-  * D15 (open)  `normalize_networkx_labels` sorts the labels as they are; for dot they are strings.
-Graph names (the `c` comment) are not part of the model's graphs; the text writers take the
-name as a parameter.  Import-free.
+  * `normalize_networkx_labels` sorts the labels as they are; the dot branch of `readGraph` first
+    turns all-digit string names into integers (`relabelDot`, fix 8f27729, former defect D15);
+  * the gml branch turns NetworkXError, TypeError and IndexError of the third-party parser into
+    ValueError (fix 1cd08f4; the parser itself is not modelled);
+  * the writers print one `c ` line per line of the graph name (fix 91715a4).
+Graph names (the `c` comments) are not part of the model's graphs; the writers take the name
+as a parameter.  Import-free.
 -/
 import CnfgenModel.Graph.Basic
 import CnfgenModel.IO.GraphLex
@@ -290,10 +295,10 @@ def readGraph (ty : GType) (rows : Rows) : Except Err AnyG :=
 def kthAdjRow (v : Nat) (ns : List Nat) : KRow :=
   .adj (some ((v : Int), ns.map Int.ofNat ++ [0]))
 
-/-- the lines `_write_graph_kthlist_*` print: name comment, order, one list per vertex, and the
-empty line that `print(output.getvalue())` appends -/
-def kthRows (n : Nat) (lists : List (Nat × List Nat)) : List KRow :=
-  .comment :: .spec (some (n : Int)) :: (lists.map (fun p => kthAdjRow p.1 p.2) ++ [.blank])
+/-- the lines `_write_graph_kthlist_*` print: `k ≥ 1` comment lines (one per line of the graph
+name), order, one list per vertex, and the empty line that `print(output.getvalue())` appends -/
+def kthRows (k n : Nat) (lists : List (Nat × List Nat)) : List KRow :=
+  List.replicate k .comment ++ .spec (some (n : Int)) :: (lists.map (fun p => kthAdjRow p.1 p.2) ++ [.blank])
 
 /-- `for v in G.vertices(): G.neighbors(v)` -/
 def simpleLists (G : SimpleG) : List (Nat × List Nat) :=
@@ -307,16 +312,16 @@ def diLists (G : DiG) : List (Nat × List Nat) :=
 def bipLists (G : BipG) : List (Nat × List Nat) :=
   (List.range G.l).map (fun i => (i + 1, (G.rnbrs (i + 1)).map (· + G.l)))
 
-def writeKthSimple (G : SimpleG) : List KRow := kthRows G.n (simpleLists G)
-def writeKthDi (G : DiG) : List KRow := kthRows G.n (diLists G)
-def writeKthBip (G : BipG) : List KRow := kthRows (G.l + G.r) (bipLists G)
+def writeKthSimple (k : Nat) (G : SimpleG) : List KRow := kthRows k G.n (simpleLists G)
+def writeKthDi (k : Nat) (G : DiG) : List KRow := kthRows k G.n (diLists G)
+def writeKthBip (k : Nat) (G : BipG) : List KRow := kthRows k (G.l + G.r) (bipLists G)
 
 /-- `_write_graph_dimacs_format` -/
-def dimacsRows (n m : Nat) (edges : List (Nat × Nat)) : List DRow :=
-  .comment :: .prob (some ((n : Int), (m : Int))) :: edges.map (fun e => .edge (some ((e.1 : Int), (e.2 : Int))))
+def dimacsRows (k n m : Nat) (edges : List (Nat × Nat)) : List DRow :=
+  List.replicate k .comment ++ .prob (some ((n : Int), (m : Int))) :: edges.map (fun e => .edge (some ((e.1 : Int), (e.2 : Int))))
 
-def writeDimacsSimple (G : SimpleG) : List DRow := dimacsRows G.n G.m G.edges
-def writeDimacsDi (G : DiG) : List DRow := dimacsRows G.n G.m G.edges
+def writeDimacsSimple (k : Nat) (G : SimpleG) : List DRow := dimacsRows k G.n G.m G.edges
+def writeDimacsDi (k : Nat) (G : DiG) : List DRow := dimacsRows k G.n G.m G.edges
 
 /-- `_write_graph_matrix_format`: for `r = 0` every row is an empty line -/
 def matrixRow (G : BipG) (u : Nat) : MRow :=
@@ -326,17 +331,19 @@ def matrixRow (G : BipG) (u : Nat) : MRow :=
 def writeMatrix (G : BipG) : List MRow :=
   .nums (some [(G.l : Int), (G.r : Int)]) :: (List.range G.l).map (fun i => matrixRow G (i + 1))
 
-/-- `writeGraph` for the in-house formats (graph object of the class of the type) -/
-def writeGraph (ty : GType) (fmt : Fmt) (G : AnyG) : Except Err Rows :=
+/-- `writeGraph` for the in-house formats (graph object of the class of the type); the graph name
+contributes one comment line per line of `str(G.name).splitlines() or ['']` -/
+def writeGraph (name : Str) (ty : GType) (fmt : Fmt) (G : AnyG) : Except Err Rows :=
+  let k := (nameLines name).length
   match checkArgs ty fmt with
   | .error e => .error e
   | .ok () =>
     match fmt, G with
-    | .kthlist, .simple g => .ok (.kth (writeKthSimple g))
-    | .kthlist, .di g => .ok (.kth (writeKthDi g))
-    | .kthlist, .bip g => .ok (.kth (writeKthBip g))
-    | .dimacs, .simple g => .ok (.dimacs (writeDimacsSimple g))
-    | .dimacs, .di g => .ok (.dimacs (writeDimacsDi g))
+    | .kthlist, .simple g => .ok (.kth (writeKthSimple k g))
+    | .kthlist, .di g => .ok (.kth (writeKthDi k g))
+    | .kthlist, .bip g => .ok (.kth (writeKthBip k g))
+    | .dimacs, .simple g => .ok (.dimacs (writeDimacsSimple k g))
+    | .dimacs, .di g => .ok (.dimacs (writeDimacsDi k g))
     | .matrix, .bip g => .ok (.matrix (writeMatrix g))
     | _, _ => .error .assertion
 
@@ -346,10 +353,11 @@ def kthListText (p : Nat × List Nat) : Str :=
   natStr p.1 ++ " :".toList ++ p.2.flatMap (fun i => ' ' :: natStr i) ++ " 0\n".toList
 
 def kthText (name : Str) (n : Nat) (lists : List (Nat × List Nat)) : Str :=
-  "c ".toList ++ name ++ ['\n'] ++ natStr n ++ ['\n'] ++ lists.flatMap kthListText ++ ['\n']
+  (nameLines name).flatMap (fun l => "c ".toList ++ l ++ ['\n']) ++
+  natStr n ++ ['\n'] ++ lists.flatMap kthListText ++ ['\n']
 
 def dimacsText (name : Str) (n m : Nat) (edges : List (Nat × Nat)) : Str :=
-  strip ("c ".toList ++ name) ++ ['\n'] ++
+  (nameLines name).flatMap (fun l => strip ("c ".toList ++ l) ++ ['\n']) ++
   "p edge ".toList ++ natStr n ++ [' '] ++ natStr m ++ ['\n'] ++
   edges.flatMap (fun e => "e ".toList ++ natStr e.1 ++ [' '] ++ natStr e.2 ++ ['\n'])
 
@@ -413,6 +421,22 @@ def relabelInts (nodes : List Int) (edges : List (Int × Int)) : Nat × List (Na
 /-- string labels (dot) -/
 def relabelStrs (nodes : List Str) (edges : List (Str × Str)) : Nat × List (Nat × Nat) :=
   relabelWith strLe nodes edges
+
+/-- first occurrences, in order (the nodes of `networkx.relabel_nodes` when the mapping merges
+two names, e.g. `"1"` and `"01"`) -/
+def dedupAux {α} [BEq α] (seen : List α) : List α → List α
+  | [] => []
+  | x :: xs => if seen.contains x then dedupAux seen xs else x :: dedupAux (x :: seen) xs
+
+def dedup {α} [BEq α] (l : List α) : List α := dedupAux [] l
+
+/-- the dot branch of `readGraph` (fix 8f27729): when every node name is a string of digits the
+names are replaced by their integer values before `normalize`; otherwise they stay strings -/
+def relabelDot (nodes : List Str) (edges : List (Str × Str)) : Nat × List (Nat × Nat) :=
+  if nodes.all isDigitStr then
+    relabelInts (dedup (nodes.map (fun u => (digitsVal u : Int))))
+      (edges.map (fun e => ((digitsVal e.1 : Int), (digitsVal e.2 : Int))))
+  else relabelStrs nodes edges
 
 /-- `Graph.from_networkx` after relabelling: `cls(G.order())`, `add_edges_from(G.edges())` -/
 def simpleOfNx (N : Nat × List (Nat × Nat)) : Except Err SimpleG := SimpleG.ofEdges N.1 N.2
